@@ -474,7 +474,8 @@ async fn read_length_and_string<IO: RW>(io: &mut IO) -> Result<String, Error> {
     let len = io.read_u8().await.context("length")?;
     let mut buf = vec![0; len as usize];
     io.read_exact(&mut buf).await.context("data")?;
-    Ok(String::from_utf8_lossy(&buf).to_string())
+    // a lossy conversion would silently turn the name into a different one
+    String::from_utf8(buf).context("string is not valid utf-8")
 }
 
 async fn read_null_terminated_string<IO: RW>(io: &mut IO) -> Result<String, Error> {
@@ -484,7 +485,7 @@ async fn read_null_terminated_string<IO: RW>(io: &mut IO) -> Result<String, Erro
     if buf.pop() != Some(0) {
         bail!("unexpected end of stream in null terminated string");
     }
-    Ok(String::from_utf8_lossy(&buf).to_string())
+    String::from_utf8(buf).context("string is not valid utf-8")
 }
 
 pub mod frames {
